@@ -46,6 +46,7 @@ func runConcurrent(name string, seed uint64) *vh.Case {
 	var seq int64
 	var mu sync.Mutex
 	var reqs []*creq
+	var panics []string
 	var wg sync.WaitGroup
 	var chainMu sync.Mutex // the store's UpdateChainState and our sync loop are one writer
 	forks := make([]*vh.RNG, G)
@@ -57,6 +58,13 @@ func runConcurrent(name string, seed uint64) *vh.Case {
 		wg.Add(1)
 		go func(g int) {
 			defer wg.Done()
+			defer func() {
+				if r := recover(); r != nil {
+					mu.Lock()
+					panics = append(panics, fmt.Sprintf("goroutine %d: %v", g, r))
+					mu.Unlock()
+				}
+			}()
 			rng := forks[g]
 			var mine []*creq
 			for k := 0; k < K; k++ {
@@ -149,6 +157,9 @@ func runConcurrent(name string, seed uint64) *vh.Case {
 	wg.Wait()
 
 	// ---- oracle ----
+	for _, p := range panics {
+		c.Oracle("conc-panic", "a wallet method panicked with options %+v: %s", cfg, p)
+	}
 	_, utxos, err := e.ws.UnspentSiacoinElements()
 	must(err)
 	conf := map[types.SiacoinOutputID]types.SiacoinElement{}
